@@ -8,6 +8,7 @@ mod c13;
 mod c15;
 mod c16;
 mod c17;
+mod c18;
 mod c20;
 mod hist;
 mod mutate;
@@ -40,6 +41,7 @@ fn main() {
         "c15" => c15::run(&opts),
         "c16" => c16::run(&opts),
         "c17" => c17::run(&opts),
+        "c18" => c18::run(&opts),
         "c11" => c11::run(&opts),
         "c05" => c05::run(&opts),
         "c06" => c06::run(&opts),
